@@ -49,7 +49,7 @@ func asciiToInt(bts []byte) (ret int, err error) {
 		return 0, fmt.Errorf("converting empty bytes to int")
 	}
 	for i := 0; i < n; i++ {
-		if bts[i]&0xf0 != 0x30 {
+		if bts[i] < '0' || bts[i] > '9' {
 			return 0, fmt.Errorf("%s is not a numeric character", string(bts[i]))
 		}
 		ret += int(bts[i]&0xf) * pow(10, n-i-1)
